@@ -171,6 +171,10 @@ func (b *Buffer) WriteByte(s byte) error {
 func (b *Buffer) WriteRune(s rune) error {
 	b.startWrite()
 	l := utf8.RuneLen(s)
+	if l < 0 {
+		// Invalid rune: utf8.EncodeRune writes utf8.RuneError instead.
+		l = utf8.RuneLen(utf8.RuneError)
+	}
 	m, ok := b.tryGrowByReslice(l)
 	if !ok {
 		m = b.grow(l)
